@@ -1,8 +1,12 @@
 package helpers
 
+import "sync/atomic"
+
 type Response[R any] struct {
-	ch  chan R
-	res R
+	ch chan R
+	// last value sent; an atomic pointer because the items of a batch share one
+	// Response and send from different worker goroutines
+	res atomic.Pointer[R]
 }
 
 func NewResponse[R any](cap int) *Response[R] {
@@ -17,7 +21,7 @@ func (rc *Response[R]) Read() <-chan R {
 
 func (c *Response[R]) Send(res R) {
 	// Store the result in the result field for later access
-	c.res = res
+	c.res.Store(&res)
 	// Send to channel for immediate consumption
 	c.ch <- res
 }
@@ -29,7 +33,11 @@ func (c *Response[R]) Response() R {
 		return result
 	}
 
-	return c.res
+	if res := c.res.Load(); res != nil {
+		return *res
+	}
+
+	return *new(R)
 }
 
 func (c *Response[R]) Drain() {
